@@ -103,10 +103,10 @@ func (u *memoryManagementUnit) fetchCacheLine(addr int32) []int8 {
 
 func (u *memoryManagementUnit) pushLineToL1D(addr comp.AlignedAddress, line []int8) {
 	evicted := u.l1d.PushLine(addr, line)
-	if len(evicted) == 0 {
+	if evicted == nil {
 		return
 	}
-	u.writeToMemory(addr, line)
+	u.writeToMemory(evicted.Boundary[0], evicted.Data)
 }
 
 func (u *memoryManagementUnit) writeToL1D(addr int32, data []int8) {
